@@ -18,6 +18,7 @@ import (
 
 	"verifharness/internal/eng"
 	"verifharness/internal/plug"
+	"verifharness/internal/rec"
 	"verifharness/internal/spec"
 )
 
@@ -41,7 +42,9 @@ func RunCaptured(ps *spec.Plan, waitTimeout time.Duration) (*Captured, error) {
 	if err != nil {
 		return nil, err
 	}
-	ws, err := coercion.New(ctx, reg, v)
+	// a recording vault (no delays) puts a "write" event after every storage write into the same log as the
+	// plugin events; without concurrent writers the k-th write event is the k-th captured statement
+	ws, err := coercion.New(ctx, reg, rec.New(v, l, 1, 0))
 	if err != nil {
 		return nil, err
 	}
